@@ -255,3 +255,93 @@ pub mod hook_recorder {
     fn query(deps: Deps, _e: Env, _m: Query) -> StdResult<Binary> { to_json_binary(&LOG.load(deps.storage)?) }
     pub fn contract() -> Box<dyn Contract<Empty>> { Box::new(ContractWrapper::new(execute, instantiate, query)) }
 }
+
+// ---- pools, vaults, routes, flash-loan borrower (C10) --------------------------------------------------------------
+pub mod borrower {
+    use cosmwasm_schema::cw_serde;
+    use cosmwasm_std::{to_json_binary, BankMsg, Binary, Coin, Deps, DepsMut, Empty, Env, MessageInfo, Response, StdResult};
+    use cw_multi_test::{Contract, ContractWrapper};
+    #[cw_serde]
+    pub enum Exec { Send { to_address: String, amount: Vec<Coin> } }
+    fn instantiate(_d: DepsMut, _e: Env, _i: MessageInfo, _m: Empty) -> StdResult<Response> { Ok(Response::default()) }
+    fn execute(_d: DepsMut, _e: Env, _i: MessageInfo, m: Exec) -> StdResult<Response> {
+        match m { Exec::Send { to_address, amount } => Ok(Response::new().add_message(BankMsg::Send { to_address, amount })) }
+    }
+    fn query(_d: Deps, _e: Env, _m: Empty) -> StdResult<Binary> { to_json_binary(&0u8) }
+    pub fn contract() -> Box<dyn Contract<Empty>> { Box::new(ContractWrapper::new(execute, instantiate, query)) }
+}
+
+use white_whale_std::fee::{Fee, VaultFee};
+use white_whale_std::pool_network::asset::PairType;
+use white_whale_std::pool_network::router::{SwapOperation, SwapRoute};
+
+impl EpochWorld {
+    pub fn add_native_decimals(&mut self, denom: &str) -> Result<(), String> {
+        self.app.execute_contract(Addr::unchecked(OWNER), self.pool_factory.clone(),
+            &white_whale_std::pool_network::factory::ExecuteMsg::AddNativeTokenDecimals { denom: denom.to_string(), decimals: 6 }, &[coin(1, denom)])
+            .map(|_| ()).map_err(|e| format!("{:#}", e))
+    }
+    pub fn create_pair(&mut self, a: &str, b: &str, protocol: u128, swap: u128, burn: u128) -> Result<Addr, String> {
+        let infos = [native(a), native(b)];
+        self.app.execute_contract(Addr::unchecked(OWNER), self.pool_factory.clone(),
+            &white_whale_std::pool_network::factory::ExecuteMsg::CreatePair { asset_infos: infos.clone(), pool_fees: pool_fee(protocol, swap, burn),
+                pair_type: PairType::ConstantProduct, token_factory_lp: false }, &[]).map_err(|e| format!("{:#}", e))?;
+        let info: white_whale_std::pool_network::asset::PairInfo = self.app.wrap().query_wasm_smart(&self.pool_factory,
+            &white_whale_std::pool_network::factory::QueryMsg::Pair { asset_infos: infos }).map_err(|e| e.to_string())?;
+        Ok(Addr::unchecked(info.contract_addr))
+    }
+    pub fn provide(&mut self, pair: &Addr, a: &str, x: u128, b: &str, y: u128) -> Result<(), String> {
+        let mut funds = vec![coin(x, a), coin(y, b)];
+        funds.sort_by(|p, q| p.denom.cmp(&q.denom));
+        self.app.execute_contract(Addr::unchecked(OWNER), pair.clone(),
+            &white_whale_std::pool_network::pair::ExecuteMsg::ProvideLiquidity { assets: [asset_native(a, x), asset_native(b, y)], slippage_tolerance: None, receiver: None }, &funds)
+            .map(|_| ()).map_err(|e| format!("{:#}", e))
+    }
+    pub fn pair_swap(&mut self, who: &str, pair: &Addr, offer: &str, amount: u128) -> anyhow::Result<AppResponse> {
+        self.app.execute_contract(Addr::unchecked(who), pair.clone(),
+            &white_whale_std::pool_network::pair::ExecuteMsg::Swap { offer_asset: asset_native(offer, amount), belief_price: None,
+                max_spread: Some(Decimal::percent(50)), to: None }, &[coin(amount, offer)])
+    }
+    pub fn create_vault(&mut self, denom: &str, protocol: u128, flash: u128) -> Result<Addr, String> {
+        self.app.execute_contract(Addr::unchecked(OWNER), self.vault_factory.clone(),
+            &white_whale_std::vault_network::vault_factory::ExecuteMsg::CreateVault { asset_info: native(denom),
+                fees: VaultFee { protocol_fee: Fee { share: dec(protocol) }, flash_loan_fee: Fee { share: dec(flash) }, burn_fee: Fee { share: dec(0) } },
+                token_factory_lp: false }, &[]).map_err(|e| format!("{:#}", e))?;
+        let v: Option<String> = self.app.wrap().query_wasm_smart(&self.vault_factory,
+            &white_whale_std::vault_network::vault_factory::QueryMsg::Vault { asset_info: native(denom) }).map_err(|e| e.to_string())?;
+        v.map(Addr::unchecked).ok_or_else(|| "vault not registered".to_string())
+    }
+    pub fn vault_deposit(&mut self, vault: &Addr, denom: &str, amount: u128) -> Result<(), String> {
+        self.app.execute_contract(Addr::unchecked(OWNER), vault.clone(),
+            &white_whale_std::vault_network::vault::ExecuteMsg::Deposit { amount: Uint128::new(amount) }, &[coin(amount, denom)])
+            .map(|_| ()).map_err(|e| format!("{:#}", e))
+    }
+    /// a flash loan taken by the borrower contract, repaid with the fees the vault asks for
+    pub fn flash_loan(&mut self, borrower: &Addr, vault: &Addr, denom: &str, amount: u128) -> anyhow::Result<AppResponse> {
+        let pay: white_whale_std::vault_network::vault::PaybackAmountResponse = self.app.wrap().query_wasm_smart(vault,
+            &white_whale_std::vault_network::vault::QueryMsg::GetPaybackAmount { amount: Uint128::new(amount) })?;
+        let msg = cosmwasm_std::to_json_binary(&borrower::Exec::Send { to_address: vault.to_string(), amount: vec![coin(pay.payback_amount.u128(), denom)] })?;
+        self.app.execute_contract(borrower.clone(), vault.clone(),
+            &white_whale_std::vault_network::vault::ExecuteMsg::FlashLoan { amount: Uint128::new(amount), msg }, &[])
+    }
+    pub fn add_route(&mut self, offer: &str, ask: &str, hops: &[(&str, &str)]) -> Result<(), String> {
+        let ops: Vec<SwapOperation> = hops.iter().map(|(o, a)| SwapOperation::TerraSwap { offer_asset_info: native(o), ask_asset_info: native(a) }).collect();
+        self.app.execute_contract(Addr::unchecked(OWNER), self.router.clone(),
+            &white_whale_std::pool_network::router::ExecuteMsg::AddSwapRoutes { swap_routes: vec![SwapRoute { offer_asset_info: native(offer), ask_asset_info: native(ask), swap_operations: ops }] }, &[])
+            .map(|_| ()).map_err(|e| format!("{:#}", e))
+    }
+    pub fn route_ops(&self, offer: &str, ask: &str) -> Option<Vec<SwapOperation>> {
+        self.app.wrap().query_wasm_smart::<Vec<SwapOperation>>(&self.router,
+            &white_whale_std::pool_network::router::QueryMsg::SwapRoute { offer_asset_info: native(offer), ask_asset_info: native(ask) }).ok()
+    }
+    pub fn simulate_route(&self, amount: u128, ops: &[SwapOperation]) -> bool {
+        let (app, router, ops) = (&self.app, self.router.clone(), ops.to_vec());
+        matches!(std::panic::catch_unwind(std::panic::AssertUnwindSafe(|| {
+            app.wrap().query_wasm_smart::<white_whale_std::pool_network::router::SimulateSwapOperationsResponse>(&router,
+                &white_whale_std::pool_network::router::QueryMsg::SimulateSwapOperations { offer_amount: Uint128::new(amount), operations: ops })
+        })), Ok(Ok(_)))
+    }
+    pub fn collector_exec(&mut self, who: &str, msg: &white_whale_std::fee_collector::ExecuteMsg) -> anyhow::Result<AppResponse> {
+        self.app.execute_contract(Addr::unchecked(who), self.collector.clone(), msg, &[])
+    }
+}
